@@ -15,13 +15,28 @@ TWO = ["\u00e9", "\u00df", "\u0085", "\u00a0", "\u07ff"]
 THREE = ["\u20ac", "\u4e2d", "\u2028", "\u2029", "\ufeff", "\u0800", "\uffff", "\ud7ff", "\ue000"]
 FOUR = ["\U0001f600", "\U0010ffff", "\U00010000", "\U0001d11e"]
 ESCAPED = ["\n", "\r", "\r\n", "\t", '"', "\\", "\\n", "\x0b", "\x0c", "\x1c", "\x00", "\x7f"]
-CLASSES = [ASCII, TWO, THREE, FOUR, ESCAPED]
+# strings and integers harvested from the anchored modules (stdio_client.py, batching.py, versioning.py,
+# json_rpc_message.py): fed into every open string / integer position
+MAGIC = [
+    "cancel scope", "json object must be str", "response", "Unknown error", "jsonrpc", "2.0", "1.0", "method", "id", "error",
+    "result", "params", "message", "code", "data", "protocol_version", "batching_enabled", "batching_supported",
+    "upgrade_required", "supports_batch_function", "2025-06-18", "2025-03-26", "2024-11-05", "notifications/initialized",
+    "notifications/cancelled", "notifications/progress", "initialize", "ping", "LOG_LEVEL", "LOGGING_LEVEL", "ERROR",
+    "CRITICAL", "()", "utf-8", "Invalid Request", "SKIP_JSONRPC_VALIDATION", "true", "_meta", "progressToken", "None", "null",
+]
+MAGIC_INTS = [0, 1, -1, 7, 99, 100, 101, 120, 200, 1024, 65536, -32600, -32603, -32700, -32601, 2025, 20250618]
+# text that breaks naive logging / formatting / embedding
+HOSTILE = ["%", "%s %d", "%(x)s", "%.120s", "{}", "{0}", "{x!r}", "{", "}", "'", "\\", "\"", "%%", "\u0000", "$HOME", "`x`"]
+CLASSES = [ASCII, TWO, THREE, FOUR, ESCAPED, MAGIC, HOSTILE]
 
 JUNK = [
     "", " ", "\t", "   \t ", "not json", "{", "}", "}{", '{"a":}', "5", '"str"', "null", "true",
     '{"jsonrpc":"2.0","id":1}', '{"jsonrpc":"2.0","id":1.5,"method":"m"}', '{"jsonrpc":"2.0","id":[1],"result":{}}',
     '{"jsonrpc":"2.0","id":2,"result":{},"error":{"code":1,"message":"m"}}',
     "\u00e9\u20ac\U0001f600", "\u2028", "\u2029", "\u0085", "\x0b\x0c", "\x1c\x1d\x1e\x1f", "junk\u0085more", "junk\u2028more",
+    "0", '""', "false", "{}", "[]", "[{}]", "[0]", "%s", "%s %d %(x)s", "{0}", "{}{}", "x" * 119, "x" * 120, "x" * 121,
+    "y" * 199, "y" * 200, "y" * 201, "\x00", "\x00{}", '\ufeff{"jsonrpc":"2.0","method":"bom"}', "\r", "\r\r", " \r", "None", "NaN",
+    "Infinity", "-0", "1e999", "'single'", '{"jsonrpc":"2.0","method":"m",}', '{"jsonrpc":"2.0","method":"m"}{"jsonrpc":"2.0","method":"n"}',
     "junk\rmore", "\rjunk", '{"jsonrpc":"2.0","method":"half', 'half","id":3}', "\ufeff", "NaN{", "<html>", "Content-Length: 12",
 ]
 
@@ -33,8 +48,28 @@ def rand_string(rng, maxparts=4):
 
 def rand_message(rng):
     """a JSON-RPC object the library's parser accepts, with strings from every character class"""
-    kind = rng.choice(["req", "notif", "resp", "err", "resp-scalar"])
-    idv = rng.choice([rng.randrange(0, 1000), rand_string(rng, 2) or "id", 0, -1, "7"])
+    kind = rng.choice(["req", "notif", "resp", "err", "resp-scalar", "falsy", "twin"])
+    idv = rng.choice([rng.randrange(0, 1000), rand_string(rng, 2) or "id", 0, -1, "7", 7, "", "0", rng.choice(MAGIC_INTS),
+                      rng.choice(MAGIC), 2**63, "7.0"])
+    if kind == "falsy":  # falsy values at every caller-/peer-supplied position
+        d = rng.choice([
+            {"jsonrpc": "2.0", "id": 0, "result": {}}, {"jsonrpc": "2.0", "id": "", "result": {}},
+            {"jsonrpc": "2.0", "id": 0, "result": []}, {"jsonrpc": "2.0", "id": 0, "result": 0},
+            {"jsonrpc": "2.0", "id": "", "result": False}, {"jsonrpc": "2.0", "id": 0, "result": ""},
+            {"jsonrpc": "2.0", "id": 0, "method": "", "params": {}}, {"jsonrpc": "2.0", "method": "", "params": {}},
+            {"jsonrpc": "2.0", "id": "", "error": {"code": 0, "message": ""}},
+            {"jsonrpc": "2.0", "id": 0, "error": {"code": 0, "message": "", "data": rng.choice([0, "", False, [], {}, None])}},
+            {"jsonrpc": "2.0", "id": 0, "method": "m", "params": {"": "", "z": 0, "f": False, "l": [], "o": {}}},
+            {}, {"jsonrpc": "2.0"}, {"id": 0}, {"method": ""},
+        ])
+        return d
+    if kind == "twin":  # values Python equates or coerces, as ids and payloads
+        t = rng.choice([7, "7", 7.0, True, 0, False, "0", "", 1, "1", 1.0, "true", "True", None])
+        d = rng.choice([
+            {"jsonrpc": "2.0", "id": t, "result": {"v": t}}, {"jsonrpc": "2.0", "id": t, "method": "m", "params": {"t": t}},
+            {"jsonrpc": "2.0", "id": 7, "result": {"twin": [7, "7", 7.0, True, 1, "1", 0, False, "", None]}},
+        ])
+        return d
     if kind == "req":
         d = {"jsonrpc": "2.0", "id": idv, "method": "m/" + rand_string(rng, 2)}
         if rng.random() < 0.7:
@@ -51,6 +86,14 @@ def rand_message(rng):
         d = {"jsonrpc": "2.0", "id": idv, "error": {"code": rng.choice([-32000, -32601, 7]), "message": rand_string(rng) or "e"}}
         if rng.random() < 0.4:
             d["error"]["data"] = {"d": rand_string(rng)}
+    r = rng.random()
+    if r < 0.15:  # members the envelope does not know
+        d[rng.choice(["extra", "_meta", "x-" + rand_string(rng, 1), "protocol_version", "result_"])] = rng.choice(
+            [None, 0, "", {"k": rand_string(rng, 2)}, [1]])
+    elif r < 0.3:  # members in an unusual order
+        ks = list(d)
+        rng.shuffle(ks)
+        d = {k: d[k] for k in ks}
     return d
 
 
@@ -75,6 +118,8 @@ def rand_items(rng, nmin=1, nmax=6, junk_p=0.3):
             text = encode_message(rng, rand_message(rng))
         assert "\n" not in text
         items.append({"text": text, "term": rng.choice(["\n", "\n", "\r\n"])})
+        if rng.random() < 0.12:  # the same line again (duplicated message)
+            items.append(dict(items[-1]))
     return items
 
 
@@ -172,3 +217,16 @@ def shrink_stream(case):
             total = sum(lens) - 1
             ncuts = [p for p in ncuts if 0 < p < total]
             yield dict(case, items=items[:i] + [dict(items[i], term="\n")] + items[i + 1:], cuts=ncuts)
+
+
+def notif_ok(got, offered, floor=100):
+    """The notification stream is a bounded buffer nobody has to read: what it holds must be a prefix of
+    the id-less messages offered, and at least the first `floor` of them (the documented capacity) - a
+    larger buffer is not a violation."""
+    from . import core
+
+    if got is None:
+        return True
+    if len(got) > len(offered) or len(got) < min(floor, len(offered)):
+        return False
+    return core.canon(got) == core.canon(offered[:len(got)])
